@@ -276,11 +276,14 @@ class Juxta:
         return h
 
     def render(self, toks, rng, prefer=None):
+        """prefer: one form letter for all positions, or a string with one letter per position; a form that does not
+        apply to a token falls back to one that does"""
         parts = []
         for pos, t in enumerate(toks):
             fs = forms_for(t, self.tok_index(t), pos, pos == len(toks) - 1)
-            if prefer:
-                pf = [f for f in fs if f[0] == prefer]
+            want = prefer[pos] if prefer and len(prefer) == len(toks) and len(prefer) > 1 else prefer
+            if want:
+                pf = [f for f in fs if f[0] == want]
                 fs = pf or fs
             parts.append(rng.choice(fs)[1])
         return ''.join(parts)
@@ -388,7 +391,8 @@ def pairs_leg(ctx, model, impl, corr):
             cases.append((toks, jx.render(toks, rng, prefer='F')))
             if ctx.thorough:
                 cases.append((toks, jx.render(toks, rng, prefer='T')))
-                cases.append((toks, jx.render(toks[:1], rng, prefer='T') + f'O{jx.tok_index(b)}_'))
+                cases.append((toks, jx.render(toks, rng, prefer='TO')))
+                cases.append((toks, jx.render(toks, rng, prefer='FO')))
     for t in TRIPLES:
         for pref in ('F', 'T', None):
             cases.append((t, jx.render(t, rng, prefer=pref)))
